@@ -529,6 +529,20 @@ func TestC11(t *testing.T) {
 			c11b.judge(rt, c, cs)
 			return
 		}
+		if rapid.IntRange(0, 5).Draw(rt, "special") == 0 {
+			// part (c): hand-built shapes with a complete expected import set
+			sc := c11sDraw(rt)
+			sig, msg := evalC11s(sc)
+			if sig == "" && msg != "" {
+				c.Note(msg)
+				return
+			}
+			c.Case(evid.Hash(sc.Patch, sc.File), true, "special:"+strings.SplitN(sc.Shape, ":", 2)[0])
+			if sig != "" {
+				violate(rt, "C11", sig, msg, sc)
+			}
+			return
+		}
 		cs := c11Draw(rt)
 		sig, msg, ex := evalC11(cs)
 		forms := map[string]bool{}
@@ -575,8 +589,17 @@ func TestReplayC11(t *testing.T) {
 	var probe struct {
 		Kind  string `json:"kind"`
 		Patch string `json:"patch"`
+		Shape string `json:"shape"`
 	}
 	if !loadReplay(t, "C11", &probe) {
+		return
+	}
+	if probe.Shape != "" {
+		var sc c11sCase
+		loadReplay(t, "C11", &sc)
+		if sig, msg := evalC11s(&sc); sig != "" {
+			violate(t, "C11", sig, msg, &sc)
+		}
 		return
 	}
 	if probe.Patch != "" {
